@@ -35,7 +35,7 @@ KNOWN = 'gmm-equal-count-seeding'
 R = 262144
 
 
-def make_beads(rng, balanced, container='float', force_low_pile=False, force_low_threshold=False):
+def make_beads(rng, balanced, container='float', force_low_pile=False, force_low_threshold=False, big=False):
     # container 'float': RFI stored directly ($DATATYPE=F, range 2^18); 'int': 10-bit, 4-decade log-amplified integers
     # that the real to_rfi converts (RFI range [1, 9910])
     R, floor = (262144, 8.0) if container == 'float' else (9910.0, 3.0)
@@ -61,6 +61,8 @@ def make_beads(rng, balanced, container='float', force_low_pile=False, force_low
             sizes = [n0] * K
     else:
         sizes = [int(rng.integers(200, 801)) for _ in range(K)]
+    if big:
+        sizes = [int(v) * 16 for v in sizes]          # a bead sample of tens of thousands of events (more than 2^16 in total)
     truth = np.repeat(np.arange(K), sizes)
     N = len(truth)
     cols, laws, mefs, rfis, atlimit = [], [], [], [], []
@@ -194,7 +196,8 @@ def run(ctx):
         low_thr = cid[0] == 'bal' and cid[1] % 11 == 7
         if low_pile or low_thr:
             container = 'float'
-        bd = make_beads(rng, cid[0] == 'bal', container, force_low_pile=low_pile, force_low_threshold=low_thr)
+        bd = make_beads(rng, cid[0] == 'bal', container, force_low_pile=low_pile, force_low_threshold=low_thr,
+                        big=(cid[0] == 'bal' and cid[1] % 22 == 9))
         K, C = bd['K'], bd['C']
         names = ['FL%d' % (c + 1) for c in range(C)]
         if container == 'float':
